@@ -90,4 +90,10 @@ CLAIMED["C13"] = {
     "technique": "Lean 4 theorems over a hand-written model + differential correspondence check; known finding recorded",
 }
 
+CLAIMED["C16"] = {
+    "text": "Theorems pinning the composition of every command, for every input: --account-index i selects m/44'/60'/0'/0/i for all i < 2^31 (default 0), --hd-path the parsed path, both together or a bad index are errors (selected_path_index, selected_path_path, selectors_conflict); the key is derive(seed(mnemonic,password), selected path) (private_key_spec); address/export/public-key print the EIP-55 address, 0x secret and 0x uncompressed key of exactly that key (address_cmd) and nothing when no key can be selected (no_key_no_output); hash data / message / typeddata [--message-hash] print the respective digests (hash_cmds, hash_typeddata_cmd); each sign subcommand prints the signature by the selected key over exactly the digest the matching hash subcommand prints (sign_message/_typeddata/_tx_is_sign_of_hash, sign_raw_cmd); sign --signature-only | hash --signature = keccak of the full signed bytes (pipeline). What the components compute is C02-C10/C14/C15. Tied to src/cmd*.rs by running the real binary: every sub-command x selector kinds x flag/environment x file/stdin, non-ASCII passphrases, bad selectors; extra checks: flag == env on the same case, the C15 pipeline end to end.",
+    "note": COMMON_NOTE + " clap's tokenisation, env lookup and conflicts_with are contract-level (vlib/cli.py maps structured ops to argv/env).",
+    "technique": "Lean 4 theorems over a hand-written model + differential correspondence check against the real binary",
+}
+
 NOT_YET = {}
